@@ -353,8 +353,14 @@ func plainRoundTrip(g *genetics.Genome, spec []string, tb table, res *result) {
 	}
 }
 
-func yamlRoundTrip(g *genetics.Genome, spec map[string]interface{}, tb table, res *result) {
+// yamlRoundTrip: genome -> YAML -> genome (with control genes).  exact = false: the genome contains a negative zero,
+// whose sign the YAML encoding is known to lose (assumption of the check, modelled by YamlLaw in Codec.tla): then the
+// read-back genome must equal the original up to the sign of zeros and nothing else.
+func yamlRoundTrip(g *genetics.Genome, spec map[string]interface{}, tb table, exact bool, res *result) {
 	want := project(g, true)
+	if !exact {
+		unsign(&want)
+	}
 	text, err := writeGenome(g, genetics.YAMLGenomeEncoding)
 	res.evals++
 	if err != nil {
@@ -437,6 +443,41 @@ func cmpDoc(path string, spec, real interface{}, tb table) string {
 		}
 		return ""
 	}
+}
+
+const negZeroHex, zeroHex = "8000000000000000", "0000000000000000"
+
+// unsign replaces negative zeros by positive zeros in a projection.
+func unsign(p *pGenome) {
+	u := func(h *string) {
+		if *h == negZeroHex {
+			*h = zeroHex
+		}
+	}
+	for i := range p.Traits {
+		for j := range p.Traits[i].P {
+			u(&p.Traits[i].P[j])
+		}
+	}
+	for i := range p.Genes {
+		u(&p.Genes[i].W)
+		u(&p.Genes[i].Mut)
+	}
+	for i := range p.Mods {
+		u(&p.Mods[i].Mut)
+	}
+}
+
+func hasNegZero(p pGenome) bool {
+	q := p
+	q.Traits = append([]pTrait(nil), p.Traits...)
+	for i := range q.Traits {
+		q.Traits[i].P = append([]string(nil), p.Traits[i].P...)
+	}
+	q.Genes = append([]pGene(nil), p.Genes...)
+	q.Mods = append([]pMod(nil), p.Mods...)
+	unsign(&q)
+	return fmt.Sprint(q) != fmt.Sprint(p)
 }
 
 func keysOf(m map[string]interface{}) []string {
@@ -725,9 +766,7 @@ func cmpFastDoc(spec, real map[string]interface{}, tb table) string {
 func genomeCase(c *codecCase, tb table, res *result) {
 	g := build(c.G, tb)
 	plainRoundTrip(g, c.Plain, tb, res)
-	if c.YamlExact {
-		yamlRoundTrip(g, c.Yaml, tb, res)
-	}
+	yamlRoundTrip(g, c.Yaml, tb, c.YamlExact, res)
 	// organism and population around the same genome (header values from the table)
 	orgRoundTrip(g, tb.val(1+len(c.G.Genes)%len(ftable)), len(c.G.Nodes), tb.val(2), len(c.G.Genes)%2 == 0, nil, tb, res)
 	g2 := build(c.G, tb)
